@@ -20,7 +20,9 @@ def tlc_corpus(ctx, module, cfgs, timeout=7200):
         f = ctx.path(cfg + ".cases")
         r = core.run_tlc(ctx, module, cfg, env={"CASES_OUT": f}, timeout=timeout)
         if r["violated"]:
-            ctx.coverage.setdefault("model_predictions", []).append("%s violated in %s" % (r["violated"], cfg))
+            # a design theorem failing stops TLC before the space is enumerated: the corpus would be
+            # silently truncated.  That is a defect of the model (or a predicted defect to investigate), never a pass.
+            raise core.MachineryError("%s violated in %s (see %s)" % (r["violated"], cfg, r["log"]))
         out.extend(load_corpus(f))
         os.remove(f)
     return out
